@@ -45,16 +45,23 @@ for _p in PROBED:
 
 
 def _engine_stress(ctx):
-    """bounded: real engine under adversarial schedules (diamonds, joins with parallel edges, failure chains; 1..8 workers; both schedulers)"""
-    if os.environ.get("UJVC_TIER") != "thorough":
-        ctx.check("bounded/engine-stress-skipped-in-quick-tier", True)
-        return "skipped"
+    """bounded: real engine under adversarial schedules (diamonds, joins with parallel edges, failure chains; 1..8 workers; both schedulers; 1 repetition per shape in the quick tier, 6 in the thorough tier)"""
+    thorough = os.environ.get("UJVC_TIER") == "thorough"
+    os.environ["UJVC_REPLAY_REPS"] = "6" if thorough else "1"     # quick: one repetition per shape (about 3 s)
     r = engine_replay.replay({})
     ctx.check("bounded/engine-stress:no-violation-of-C01/C04/C06/C07/C10-observed", bool(not r["reproduced"]), info=r["detail"][-2500:])
     return "ok"
 
 
-unit("system.engine-stress", props=["C01", "C04", "C06", "C07", "C10"], assumptions=["bounded stand-in (thorough tier only)"], min_obligations=1, kind="bounded")(_engine_stress)
+_RF = "_execution/run_function_on_graph.py"
+_SC = "_execution/scheduler.py"
+unit("system.engine-stress", props=["C01", "C04", "C06", "C07", "C10"],
+     functions=[(_RF, "run_function_on_graph"), (_RF, "run_function_on_graph.<locals>.process_node"), (_RF, "worker_pool"), (_RF, "worker_thread"), (_RF, "thread"),
+                (_RF, "worker_thread.<locals>.process_items"), (_RF, "prepare_nodes"), (_RF, "coerce_node_error"), (_SC, "create_queue"), (_SC, "create_simple_queue"),
+                (_SC, "PriorityQueue.__init__"), (_SC, "PriorityQueue._put"), (_SC, "PriorityQueue._get"), (_SC, "PriorityQueue._qsize"),
+                (_SC, "RandomQueue.__init__"), (_SC, "RandomQueue._put"), (_SC, "RandomQueue._get"), (_SC, "RandomQueue._qsize"),
+                ("_util/networkx_util.py", "predecessor_count")],
+     assumptions=["bounded stand-in: quick tier 1 repetition per shape, thorough tier 6"], min_obligations=1, kind="bounded")(_engine_stress)
 
 _generic = sysprobe.replay_for([], 1500)
 REPLAYS = [("system.*", _generic)]
